@@ -2,6 +2,7 @@
   TwigProofs.Lemmas.LiftStrip — rendering is insensitive to empty text nodes (part of the helpers for TwigProofs/Lift.lean).
 -/
 import TwigProofs.Lemmas.LiftBase
+import TwigProofs.Lemmas.Paths
 namespace Twig
 namespace Lift
 
@@ -663,6 +664,9 @@ theorem stripS_setAll (st : St) (ic : Ctx) (h1 : ic.blockDefs = []) (h2 : ic.cha
 theorem bind_pure_id {α} (x : R (α × St)) : (x >>= fun a => pure (a.1, a.2)) = x := by
   cases x <;> rfl
 
+theorem resolveTpl_strip (E : Env) (name : Bytes) : resolveTpl (stripE E) name = resolveTpl E name :=
+  resolveTpl_congr (E := E) (E' := stripE E) rfl (fun n => by rw [tpl_strip]; cases E.tpl? n <;> rfl) name
+
 mutual
 theorem renderNode_strip (E : Env) {go' go : Go} (hg : GoStrip go' go) (tpl : Bytes) :
     ∀ (n : Node) (st : St),
@@ -708,98 +712,94 @@ theorem renderNode_strip (E : Env) {go' go : Go} (hg : GoStrip go' go) (tpl : By
     rfl
   | .block name body, st => block_strip E hg tpl name body st
   | .extends e, st => by
-    simp only [stripN, renderNode, evalX_stripE, evalX_strip, mapSt_bind, bind_mapSt, tpl_strip]
+    simp only [stripN, renderNode, evalX_stripE, evalX_strip, mapSt_bind, bind_mapSt]
     apply bind_congr_ok
     intro a _
     apply bind_congr_ok
     intro name _
-    split
-    · rfl
-    · cases E.tpl? name with
-      | none => rfl
-      | some ns =>
-        simp only [Option.map_some]
-        have := hg (.root name) { a.2 with ctx := { freshCtx a.2.ctx.vars (E.F.propExtends && a.2.ctx.sandboxed) a.2.ctx.inside with blockDefs := a.2.ctx.blockDefs, parents := a.2.ctx.parents } }
-        simp only [stripT] at this
-        show (go' (.root name) (stripS { a.2 with ctx := { freshCtx a.2.ctx.vars (E.F.propExtends && a.2.ctx.sandboxed) a.2.ctx.inside with blockDefs := a.2.ctx.blockDefs, parents := a.2.ctx.parents } }) >>= _) = _
-        rw [this, mapSt_bind, bind_mapSt]
+    rw [resolveTpl_strip]
+    cases resolveTpl E name with
+    | none => rfl
+    | some rn =>
+      dsimp only
+      have := hg (.root rn) { a.2 with ctx := { freshCtx a.2.ctx.vars (E.F.propExtends && a.2.ctx.sandboxed) a.2.ctx.inside with blockDefs := a.2.ctx.blockDefs, parents := a.2.ctx.parents } }
+      simp only [stripT] at this
+      show (go' (.root rn) (stripS { a.2 with ctx := { freshCtx a.2.ctx.vars (E.F.propExtends && a.2.ctx.sandboxed) a.2.ctx.inside with blockDefs := a.2.ctx.blockDefs, parents := a.2.ctx.parents } }) >>= _) = _
+      rw [this, mapSt_bind, bind_mapSt]
+      apply bind_congr_ok
+      intro x _
+      rfl
+  | .include te names exprs ignoreMissing only sandboxed, st => by
+    simp only [stripN, renderNode, evalX_stripE, evalX_strip, mapSt_bind, bind_mapSt, evalArgs_stripE]
+    apply bind_congr_ok
+    intro a _
+    apply bind_congr_ok
+    intro name _
+    rw [resolveTpl_strip]
+    cases resolveTpl E name with
+    | none =>
+      dsimp only
+      cases ignoreMissing <;> rfl
+    | some rn =>
+      dsimp only
+      have hpol : (stripE E).hasPolicy = E.hasPolicy := rfl
+      rw [hpol]
+      split
+      · rfl
+      · rw [evalArgs_strip, mapSt_bind, bind_mapSt]
         apply bind_congr_ok
         intro x _
-        rfl
-  | .include te names exprs ignoreMissing only sandboxed, st => by
-    simp only [stripN, renderNode, evalX_stripE, evalX_strip, mapSt_bind, bind_mapSt, tpl_strip, evalArgs_stripE]
-    apply bind_congr_ok
-    intro a _
-    apply bind_congr_ok
-    intro name _
-    split
-    · rfl
-    · cases E.tpl? name with
-      | none =>
-        simp only [Option.map_none]
-        cases ignoreMissing <;> rfl
-      | some ns =>
-        simp only [Option.map_some]
-        have hpol : (stripE E).hasPolicy = E.hasPolicy := rfl
-        rw [hpol]
-        split
-        · rfl
-        · rw [evalArgs_strip, mapSt_bind, bind_mapSt]
-          apply bind_congr_ok
-          intro x _
-          cases only <;> cases sandboxed <;>
-            (simp only [Bool.not_false, Bool.not_true, Bool.and_true, Bool.and_false,
-                if_true, Bool.false_eq_true, if_false, Bool.false_or, Bool.true_or]
-             rw [stripS_setAll _ _ rfl rfl]
-             have hroot := hg (.root name)
-             simp only [stripT] at hroot
-             rw [hroot, mapSt_bind, bind_mapSt]
-             apply bind_congr_ok
-             intro y _
-             rfl)
+        cases only <;> cases sandboxed <;>
+          (simp only [Bool.not_false, Bool.not_true, Bool.and_true, Bool.and_false,
+              if_true, Bool.false_eq_true, if_false, Bool.false_or, Bool.true_or]
+           rw [stripS_setAll _ _ rfl rfl]
+           have hroot := hg (.root rn)
+           simp only [stripT] at hroot
+           rw [hroot, mapSt_bind, bind_mapSt]
+           apply bind_congr_ok
+           intro y _
+           rfl)
   | .macro name ps dn de body, st => rfl
   | .importN te alias, st => by
-    simp only [stripN, renderNode, evalX_stripE, evalX_strip, mapSt_bind, bind_mapSt, tpl_strip]
+    simp only [stripN, renderNode, evalX_stripE, evalX_strip, mapSt_bind, bind_mapSt]
     apply bind_congr_ok
     intro a _
     apply bind_congr_ok
     intro name _
-    split
-    · rfl
-    · cases E.tpl? name with
-      | none => rfl
-      | some ns =>
-        simp only [Option.map_some]
-        have hroot := hg (.root name) { a.2 with ctx := freshCtx [] (E.F.propImport && a.2.ctx.sandboxed) a.2.ctx.inside }
-        simp only [stripT] at hroot
-        show (go' (.root name) (stripS { a.2 with ctx := freshCtx [] (E.F.propImport && a.2.ctx.sandboxed) a.2.ctx.inside }) >>= _) = _
-        rw [hroot, mapSt_bind, bind_mapSt]
-        apply bind_congr_ok
-        intro x _
-        rfl
+    rw [resolveTpl_strip]
+    cases resolveTpl E name with
+    | none => rfl
+    | some rn =>
+      dsimp only
+      have hroot := hg (.root rn) { a.2 with ctx := freshCtx [] (E.F.propImport && a.2.ctx.sandboxed) a.2.ctx.inside }
+      simp only [stripT] at hroot
+      show (go' (.root rn) (stripS { a.2 with ctx := freshCtx [] (E.F.propImport && a.2.ctx.sandboxed) a.2.ctx.inside }) >>= _) = _
+      rw [hroot, mapSt_bind, bind_mapSt]
+      apply bind_congr_ok
+      intro x _
+      rfl
   | .fromN te names, st => by
-    simp only [stripN, renderNode, evalX_stripE, evalX_strip, mapSt_bind, bind_mapSt, tpl_strip]
+    simp only [stripN, renderNode, evalX_stripE, evalX_strip, mapSt_bind, bind_mapSt]
     apply bind_congr_ok
     intro a _
     apply bind_congr_ok
     intro name _
-    split
-    · rfl
-    · cases E.tpl? name with
-      | none => rfl
-      | some ns =>
-        simp only [Option.map_some]
-        have hroot := hg (.root name) { a.2 with ctx := freshCtx [] (E.F.propFrom && a.2.ctx.sandboxed) a.2.ctx.inside }
-        simp only [stripT] at hroot
-        show (go' (.root name) (stripS { a.2 with ctx := freshCtx [] (E.F.propFrom && a.2.ctx.sandboxed) a.2.ctx.inside }) >>= _) = _
-        rw [hroot, mapSt_bind, bind_mapSt]
-        apply bind_congr_ok
-        intro x _
-        show (bindFrom x.2.ctx.macros names a.2.ctx.macros >>= _) = _
-        rw [bind_mapSt]
-        apply bind_congr_ok
-        intro ms _
-        rfl
+    rw [resolveTpl_strip]
+    cases resolveTpl E name with
+    | none => rfl
+    | some rn =>
+      dsimp only
+      have hroot := hg (.root rn) { a.2 with ctx := freshCtx [] (E.F.propFrom && a.2.ctx.sandboxed) a.2.ctx.inside }
+      simp only [stripT] at hroot
+      show (go' (.root rn) (stripS { a.2 with ctx := freshCtx [] (E.F.propFrom && a.2.ctx.sandboxed) a.2.ctx.inside }) >>= _) = _
+      rw [hroot, mapSt_bind, bind_mapSt]
+      apply bind_congr_ok
+      intro x _
+      show (bindFrom x.2.ctx.macros names a.2.ctx.macros >>= _) = _
+      rw [bind_mapSt]
+      apply bind_congr_ok
+      intro ms _
+      rfl
   | .apply filter body, st => by
     simp only [stripN, renderNode, renderNodes_strip E hg tpl body st, mapSt_bind, bind_mapSt, applyFilter_stripE]
     apply bind_congr_ok
